@@ -19,6 +19,7 @@ def run(ctx, rep):
     rep.guarded('D2.d2_columns', d2_columns, ctx, rep)
     rep.guarded('D3.d3_pipeline', d3_pipeline, ctx, rep)
     rep.guarded('D4.d4_dependence', d4_dependence, ctx, rep)
+    rep.guarded('D5.d5_allrows', d5_allrows, ctx, rep)
 
 
 def _output_stores(fn):
@@ -269,3 +270,22 @@ def d4_dependence(ctx, rep):
                       construct='covariance of the unconditional draw')
             rep.check('D4.cov', fn, c, mean in ('ZERO', ('num', 0)), 'mean = zeros', f'mean of the unconditional draw is {mean}, not zero',
                       construct='mean of the unconditional draw')
+
+
+def d5_allrows(ctx, rep):
+    rep.rule('D5.allrows', 'no function of the fit closure re-binds its table parameter to a subset of its rows: marginals and correlation are estimated from every training row')
+    from ..idioms import private_closure, row_subsets_reaching
+    fit = gauss.gm_method(ctx, 'fit')
+    n = 0
+    for f in private_closure(ctx, fit):
+        ps = [p for p in f.params if p != f.self_name]
+        if not ps:
+            continue
+        n += 1
+        hits = [(st, tn, bn, how) for st, tn, bn, how in row_subsets_reaching(f.node, set(ps[:1])) if tn == ps[0]]
+        for st, tn, bn, how in hits:
+            rep.bad('D5.allrows', f, st, f'{tn} is re-bound to {how} of {bn}: the estimate that follows uses only part of the training table', construct=f'{f.node.name}: table parameter keeps all rows')
+        if not hits:
+            rep.ok('D5.allrows', f, f.node.name, f'`{ps[0]}` is never re-bound to a row subset', construct=f'{f.node.name}: table parameter keeps all rows')
+    if not n:
+        rep.undecided('D5.allrows', fit, fit.node.name, 'fit closure not derived')
